@@ -69,7 +69,7 @@ class Sort(SortAsSubsets):
     is_gen = True
 
 
-@harness("topological.find_cycles", "every edge set on <= 3 nodes (quick) / <= 4 (thorough), self loops included")
+@harness("topological.find_cycles", "every edge set on <= 3 nodes (quick) / <= 4 (thorough), self loops included; items = all nodes, every subset missing one node (cycles that pass through a node that is not an item), and no items")
 class FindCycles(SortAsSubsets):
     fn_name = "find_cycles"
     is_gen = False
@@ -78,3 +78,7 @@ class FindCycles(SortAsSubsets):
         nmax = 3 if tier == "quick" else 4
         for n, edges in graphs(nmax, tier):
             yield {"n": n, "edges": edges, "items": list(range(n))}
+            if n >= 2 and edges:
+                for miss in range(n):
+                    yield {"n": n, "edges": edges, "items": [i for i in range(n) if i != miss]}
+                yield {"n": n, "edges": edges, "items": []}
